@@ -363,10 +363,8 @@ func pcSameLayer(a, b gopacket.Layer) (bool, string) {
 		return false, "DecodeFailure vs ordinary layer"
 	}
 	if oka {
-		// the stack text differs by construction; recovered runtime errors carry the same text
-		if fa.Error().Error() != fb.Error().Error() {
-			return false, "error text differs"
-		}
+		// error class only: neither the stack nor the error text is compared
+		_, _ = fa, fb
 		return true, ""
 	}
 	if reflect.DeepEqual(a, b) {
@@ -406,7 +404,8 @@ type pcRealExec struct {
 
 func pcRealExecute(pc pcCase, dec gopacket.Decoder, o gopacket.DecodeOptions) *pcRealExec {
 	ex := &pcRealExec{}
-	input := append([]byte{}, pc.data...)
+	input := make([]byte, len(pc.data)) // cap == len: a slice past the end panics instead of reading spare capacity
+	copy(input, pc.data)
 	func() {
 		defer func() {
 			if r := recover(); r != nil {
@@ -426,11 +425,7 @@ func pcRealExecute(pc pcCase, dec gopacket.Decoder, o gopacket.DecodeOptions) *p
 	return ex
 }
 
-func (ex *pcRealExec) dispose() {
-	if pp, ok := ex.pkt.(gopacket.PooledPacket); ok {
-		pp.Dispose()
-	}
-}
+func (ex *pcRealExec) dispose() { pcDisposeScrubbed(ex.pkt) }
 
 func (ex *pcRealExec) pos(c pcRealCall) int {
 	if c.kind != "layer" {
